@@ -68,11 +68,20 @@ PROPS = {
         assumptions=['time parameters are whatever the callers pass; theorems quantify over all of them'],
         trusted_base=['lock coroutines are modelled by hand and tied by sysdiff'],
     ),
+    'C04': dict(
+        modules=['Resonate.Properties.C04'],
+        tie_filter=r'promise(SelectAll|Update|Select_|Search)|shape|wiring',
+        harness=[sysdiff('sysdiff-timeouts', ['ReadPromise', 'SearchPromises', 'CreatePromise', 'CreatePromiseAndTask', 'CompletePromise'],
+                         (30, 150), (800, 150), 'C04,C01', ['-routed', '20', '-fail', '10', '-crash', '1', '-smallcfg'], (250, 150))],
+        rule=SYS_RULE + '; request and sweep ticks are placed before / exactly at / after the timeout (timeouts drawn as now-1000, now, now+1, now+1000, ...; clock steps 0, 1, 500, 1000, ...), promise batch sizes 1..100; the C04 response monitor checks on every implementation response of read / create / complete / search that no promise is reported pending with timeout <= the tick of the response',
+        assumptions=['the decision tick is the tick at which the coroutine was resumed after its read (c.Time())'],
+        trusted_base=['coroutines modelled by hand and tied by sysdiff'],
+    ),
     'C05': dict(
         modules=['Resonate.Properties.C05'],
         tie_filter=r'callback|taskInsertAll|taskCompleteByRootId|promiseUpdate|promiseSelect_|shape|wiring|uniques',
         harness=[sysdiff('sysdiff-callbacks', ['ReadPromise', 'CreatePromise', 'CompletePromise', 'CreateCallback', 'CreateSubscription', 'SearchPromises'],
-                         (30, 120), (600, 150), 'C05,C01', ['-routed', '20', '-fail', '15', '-crash', '2'], (200, 150)),
+                         (30, 120), (600, 150), 'C05,C01,C04', ['-routed', '20', '-fail', '15', '-crash', '2', '-known', 'F5'], (200, 150)),
                  storediff('storediff-callbacks', ['CreatePromise', 'UpdatePromise', 'CreateCallback', 'DeleteCallbacks', 'CreateTasks', 'CompleteTasks', 'ReadTask', 'ReadPromise'], (20, 30), (500, 40))],
         rule=SYS_RULE + '; the C05 monitor (every registration awaits a pending promise; a promise completed in a batch had every registration turned into exactly one identical task) runs on every committed batch of the implementation',
         assumptions=['completion requests carry a state in {resolved, rejected, canceled} (front-end validation)'],
